@@ -16,7 +16,11 @@
    and linked by the real wild; the spec predicts exactly which links fail with an accounting error.
    A failure the spec did not predict, on an input GNU ld links, is a violation; predicted ones are
    the recorded findings.
-3. Option cross product over single-site programs of every output kind: pack-relative-relocs,
+3. .eh_frame: FDEs whose pc-begin designates an empty or non-empty, kept or collected section
+   (Alloc.tla: layout reserves only for non-empty loaded sections, the writer keeps an FDE only
+   under the same condition; the writer that ignores emptiness is a rejected variant), replayed for
+   static / PIE / shared outputs x eh-frame-hdr on/off x option sets.
+4. Option cross product over single-site programs of every output kind: pack-relative-relocs,
    hash-style, build-id, eh-frame-hdr, strip-all/debug, no-relax, export-dynamic.
 Every link is judged by vlib.allocprobe.is_alloc_failure on wild's diagnostic.
 """
@@ -54,9 +58,10 @@ OPTS = {
 def model(ctx, cov):
     # the four TLC runs are independent: run them side by side (JVM start-up dominates each)
     from concurrent.futures import ThreadPoolExecutor
-    cfgs = ["mc/Alloc_site.cfg", "mc/Alloc_symbol.cfg", "mc/Alloc_strict.cfg", "mc/Alloc_oldrelr.cfg"]
-    with ThreadPoolExecutor(max_workers=4) as ex:
-        r, rs, rb, ro = list(ex.map(lambda c: tlc.run_tlc("MCAlloc", c, workers=4 if "site" in c else 2, timeout=900,
+    cfgs = ["mc/Alloc_site.cfg", "mc/Alloc_symbol.cfg", "mc/Alloc_strict.cfg", "mc/Alloc_oldrelr.cfg",
+            "mc/Alloc_ehframe.cfg", "mc/Alloc_ehbroken.cfg"]
+    with ThreadPoolExecutor(max_workers=6) as ex:
+        r, rs, rb, ro, re_, reb = list(ex.map(lambda c: tlc.run_tlc("MCAlloc", c, workers=4 if "site" in c else 2, timeout=900,
                                                            coverage=False, name=f"MCAlloc.{c.split(chr(47))[-1]}.{os.getpid()}"), cfgs))
     if not r.ok or r.depth != 3 or r.distinct != 3 * len(r.records) or len(r.records) < 2000:
         raise ToolError(f"Alloc site model failed: ok={r.ok} {r.violated} {r.error_text} depth={r.depth} states={r.distinct} "
@@ -67,12 +72,19 @@ def model(ctx, cov):
         raise ToolError("the strict accounting invariant holds on the transcription: the deviations are stale or the model is vacuous")
     if ro.ok or ro.violated != "InvAccounting":
         raise ToolError("the old RELR rule (offset parity at layout, address parity at write) was NOT rejected by InvAccounting")
-    cov["states"] = r.distinct + rs.distinct
-    cov["transitions"] = r.generated + rs.generated
+    if not re_.ok or len(re_.records) != 8 or not all(x["agree"] for x in re_.records):
+        raise ToolError(f"Alloc .eh_frame model failed: {re_.violated} {re_.error_text} records={len(re_.records)}")
+    if reb.ok or reb.violated != "InvEhFrame":
+        raise ToolError("the writer variant that keeps FDEs of empty sections was NOT rejected by InvEhFrame")
+    cov["states"] = r.distinct + rs.distinct + re_.distinct
+    cov["transitions"] = r.generated + rs.generated + re_.generated
     cov["tlc_runs"] = [{"cfg": "mc/Alloc_site.cfg", **r.summary(), "records": len(r.records)},
                        {"cfg": "mc/Alloc_symbol.cfg", **rs.summary()},
                        {"cfg": "mc/Alloc_strict.cfg", "expected_violation": rb.violated},
-                       {"cfg": "mc/Alloc_oldrelr.cfg", "expected_violation": ro.violated}]
+                       {"cfg": "mc/Alloc_oldrelr.cfg", "expected_violation": ro.violated},
+                       {"cfg": "mc/Alloc_ehframe.cfg", **re_.summary(), "records": len(re_.records)},
+                       {"cfg": "mc/Alloc_ehbroken.cfg", "expected_violation": reb.violated}]
+    model.eh_records = re_.records
     return r.records
 
 
@@ -89,6 +101,122 @@ def rec_to_case(rec):
     if rec.get("sibling"):
         c["sibling"] = True
     return c
+
+
+def eh_source(rec, out, referenced):
+    """An FDE whose pc-begin designates section .text.e: empty or not, kept or collected."""
+    entry = "vt_main" if out == "shared" else "_start"
+    ref = ("    movq e@GOTPCREL(%rip), %rax\n" if out == "shared" else "    lea e(%rip), %rax\n") if referenced else ""
+    fin = "    xor %eax, %eax\n    ret\n" if out == "shared" else "    xor %edi, %edi\n    mov $60, %eax\n    syscall\n"
+    body = "" if rec["empty"] else "    ret\n"
+    vis = ".globl e\n" + ("" if referenced else ".hidden e\n")
+    return rg.NOTE + f""".text
+.globl {entry}
+.type {entry},@function
+{entry}:
+    .cfi_startproc
+{ref}    call .Lf
+{fin}    .cfi_endproc
+.section .text.f,"ax",@progbits
+.Lf:
+    .cfi_startproc
+    ret
+    .cfi_endproc
+.section .text.e,"ax",@progbits
+{vis}.type e,@function
+e:
+    .cfi_startproc
+{body}    .cfi_endproc
+.size e, .-e
+"""
+
+
+def eh_work(args):
+    rec, out, opts, referenced, workdir, idx = args
+    from vlib.asm import assemble
+    from vlib.common import run_wild, sh
+    name = f"eh-{out}-empty{int(rec['empty'])}-loaded{int(rec['loaded'])}-hdr{int(rec['hdr'])}-ref{int(referenced)}-{idx}"
+    res = {"name": name, "rec": rec, "out": out, "opts": opts}
+    try:
+        cd = Path(workdir) / name
+        cd.mkdir(parents=True)
+        (cd / "m.s").write_text(eh_source(rec, out, referenced))
+        o = assemble(cd / "m.s")
+        base = {"static": [], "pie": ["-pie"], "shared": ["-shared"]}[out]
+        args_l = base + (["--eh-frame-hdr"] if rec["hdr"] else ["--no-eh-frame-hdr"]) + list(opts) + [str(o), "-o", str(cd / "out")]
+        r = run_wild(args_l, timeout=60)
+        res.update(rc=r.rc, err=r.err[-1200:], args=args_l, alloc=allocprobe.probe(r), klass=r.klass(), dir=str(cd))
+        a2 = [a for a in args_l[:-1]] + [str(cd / "out.ld")]
+        if out == "pie":
+            a2 = ["--no-dynamic-linker"] + a2
+        r2 = sh(["ld"] + a2, timeout=60)
+        res["ld_rc"] = r2.rc
+        res["ld_err"] = r2.err[-300:]
+        if r.rc == 0 and out != "shared":
+            p = sh([cd / "out"], timeout=20)
+            res["native"] = p.rc
+    except ToolError as e:
+        res["tool_error"] = str(e)
+    except Exception:  # noqa
+        import traceback
+        res["tool_error"] = traceback.format_exc()[-1500:]
+    return res
+
+
+def eh_replay(ctx, cov, d, rng):
+    """Replay of the .eh_frame records: FDEs for empty / non-empty, kept / collected functions x outputs x options."""
+    jobs = []
+    optsets = [[], ["--build-id", "--hash-style=both"], ["--strip-all"], ["--strip-debug", "--no-relax"], ["--export-dynamic"],
+               ["-z", "pack-relative-relocs"], ["--hash-style=sysv", "--build-id=uuid"]]
+    idx = 0
+    for rec in model.eh_records:
+        for out in ("static", "pie", "shared"):
+            sel = optsets if not ctx.quick else [optsets[0]] + rng.sample(optsets[1:], 2)
+            for opts in sel:
+                if "pack-relative-relocs" in opts and out == "static":
+                    continue
+                # loaded: referenced from the entry point (or, alternately, unreferenced with --no-gc-sections)
+                if rec["loaded"]:
+                    referenced = idx % 3 != 2
+                    o2 = list(opts) + ([] if referenced else ["--no-gc-sections"])
+                else:
+                    referenced, o2 = False, list(opts)
+                jobs.append((rec, out, o2, referenced, str(d / "eh"), idx))
+                idx += 1
+    with ProcessPoolExecutor(max_workers=8) as ex:
+        results = list(ex.map(eh_work, jobs, chunksize=4))
+    errs = [r for r in results if "tool_error" in r]
+    if errs:
+        raise ToolError(f"{len(errs)} eh_frame case(s) failed in the harness, first {errs[0]['name']}: {errs[0]['tool_error']}")
+    n_fail = n_ok = n_run = 0
+    for res in results:
+        if res["ld_rc"] != 0:
+            raise ToolError(f"GNU ld rejects the generated eh_frame input {res['name']}: {res['ld_err']}")
+        if res["alloc"]:
+            n_fail += 1
+            rec = res["rec"]
+            key = f"{res['alloc']}:fde-of-{'empty' if rec['empty'] else 'nonempty'}-{'kept' if rec['loaded'] else 'collected'}-section"
+            last = [l for l in res["err"].strip().splitlines() if "llocat" in l]
+            ctx.verdict.report(
+                key, f"{res['name']}: wild fails with a size-accounting error ({(last or ['?'])[-1].strip()[:170]}) on an input GNU ld links; "
+                     f"options {res['args'][:-3]}; the specification has layout and writer agree on this FDE",
+                lambda res=res: save_replay(PROP, res["name"], src_dir=res["dir"],
+                                            meta={"rec": res["rec"], "wild_args": res["args"], "wild_err": res["err"]}))
+        elif res["rc"] != 0:
+            if res["klass"] in ("panic", "hang"):
+                log(f"C23 note: wild {res['klass']} on {res['name']}")
+            else:
+                raise ToolError(f"wild rejects the eh_frame input {res['name']} that GNU ld links: {res['err'].strip()[-300:]}")
+        else:
+            n_ok += 1
+            if "native" in res:
+                n_run += 1
+                if res["native"] != 0:
+                    log(f"C23 note: {res['name']} exits {res['native']}")
+    cov["eh_frame_replay"] = {"links": len(results), "accounting_failures": n_fail, "accepted": n_ok, "executed": n_run}
+    if results:
+        cov["samples"].append({"case": results[0]["name"], "wild_rc": results[0]["rc"], "gnu_ld_rc": results[0]["ld_rc"]})
+    return len(results)
 
 
 def work(args):
@@ -252,6 +380,7 @@ def run(ctx):
                                  "combinations": len(combos), "base_programs": len(base)}
         if len(cov["samples"]) < 6 and results2:
             cov["samples"].append({"case": results2[0]["name"], "options": results2[0]["case"]["opts"], "wild_rc": results2[0]["rc"]})
+        n_eh = eh_replay(ctx, cov, d, rng)
         # binding demonstration: the probe must recognise the three message shapes and nothing else
         demo = {
             "insufficient": allocprobe.alloc_failure_key("x\n  Insufficient .rela.dyn (relative) allocation. Setting WILD_VERIFY_ALLOCATIONS=1"),
@@ -265,7 +394,7 @@ def run(ctx):
         if flipped is None:
             raise ToolError("no accepted case for the binding demonstration")
         cov["binding_demo"] = demo
-    cov["traces_validated_against_impl"] = len(results) + len(results2)
+    cov["traces_validated_against_impl"] = len(results) + len(results2) + n_eh
     cov["cases_enumerated"] = len(recs)
     cov["exhaustive"] = not ctx.quick
     cov["samples"] = trim_samples(cov["samples"], 6, 700)
